@@ -1,5 +1,6 @@
 import CalicoVerif.Proofs.C11Whole
 import CalicoVerif.Proofs.C11Range
+import CalicoVerif.Proofs.C11Total
 /-!
 C11 — BPF policy programs reach the same verdict as the policy semantics.
 
@@ -7,8 +8,9 @@ Staged as DESIGN §6 says.  What is proved (every theorem is for ALL inputs of
 the stated shape; no sampling):
 
 * `polprog_verdict_partial` — **whole program, IPv4, not split**: for every
-  `Rules` configuration whose rules have allow/deny/pass/next-tier actions and
-  API-valid criteria (`ProgOK`), every packet state and every IP-set
+  `Rules` configuration whose policy rules have allow/deny/pass/next-tier/log actions
+  (profile rules: allow/deny/pass) and API-valid criteria (`ProgOK`), with or without
+  flow-log rule-hit recording, every packet state and every IP-set
   environment, the instructions the builder model emits (the very list that is
   compared slot by slot with the real builder's `asm.Insns`), run by the eBPF
   interpreter from the program entry, end exactly as the REFERENCE verdict
@@ -17,7 +19,8 @@ the stated shape; no sampling):
   `pol_rc` = 10 / 2, or XDP_PASS for untracked policy that neither allows nor
   denies.  Covers: all match criteria and their negations (protocol, CIDRs,
   IP sets incl. the byte-exact LPM key on the stack, numeric and named ports,
-  ICMP type/code), tiers, pass, end-of-tier actions, profiles, pre-DNAT /
+  ICMP type/code), `log` rules (flag set, evaluation continues) and rule-hit recording
+  (the state is written only outside the packet fields), tiers, pass, end-of-tier actions, profiles, pre-DNAT /
   apply-on-forward / normal host policy, host flags, XDP.
 * `lrun_program_partial` — the same statement on the label-level semantics.
 * `rule_guard` — the match part of ANY valid rule is a guard for the reference
@@ -31,11 +34,12 @@ the stated shape; no sampling):
 
 `_partial` because not yet covered by theorems (they ARE covered by the
 instruction-exact tie and by the interpreter-vs-reference oracle on every
-generated packet): `log` actions and flow-log rule-hit recording (`record`),
-program splitting, IPv6, a failing state-map lookup; and `compile_total`
-(validity ⇒ no panic and `Assemble` succeeds: all labels defined, distances in
-range) is not proved yet — `polprog_verdict_partial` takes the successful build
-as a hypothesis, shown satisfiable by the example at the end.
+generated packet): program splitting, IPv6, a failing state-map lookup.
+
+* `compile_total_partial` (IPv4, not split) — validity (`Buildable`) ⇒ `Builder.Instructions`
+  neither panics nor does `Assemble` fail; `polprog_built_verdict_partial` combines it with the
+  whole-program theorem, so no build hypothesis is left; `assemble_total_all` — the assembler is
+  total on closed event lists.
 
 Two places where the full statement is FALSE of the current code are recorded
 with witnesses: `profile_log_panics` and `proto_name_mismatch` (the latter is
@@ -72,17 +76,17 @@ theorem rule_guard (env : Env) (st : List Byte) (hc : SetCtx env st) (rid : Nat)
 
 /-- rule → policy → tier: `writeTiers` decides what the reference `evalTiers` decides. -/
 theorem tiers_verdict (env : Env) (st : List Byte) (hc : SetCtx env st) (leg : Leg) (al : Label)
-    (ts : List Tier) (rid tid : Nat) (hrec : env.c.record = false) (hal : isAllowLabel al) (hts : TiersGood ts) :
+    (ts : List Tier) (rid tid : Nat) (hal : isAllowLabel al) (hts : TiersGood ts) :
     Decides env st (flat (writeTiers env.c leg al ts rid tid).1) (tiersDec al (evalTiers env (pktOfD st) leg ts)) :=
-  (tiers_block env st (pktOfD st) leg al ts rid tid hrec hal (hts.plain hc)).1
+  (tiers_block env st (pktOfD st) leg al ts rid tid hal (hts.plain hc)).1
 
 /-- profiles: `writeProfiles` decides what the reference `evalProfiles` (pass ⇒ deny) decides. -/
 theorem profiles_verdict (env : Env) (st : List Byte) (hc : SetCtx env st) (al : Label)
-    (ps : List Policy) (noMatchID rid : Nat) (hrec : env.c.record = false) (hal : isAllowLabel al)
+    (ps : List Policy) (noMatchID rid : Nat) (hal : isAllowLabel al)
     (hps : ProfsGood ps) :
     Decides env st (flat (writeProfiles env.c al ps noMatchID rid).1)
       (profDec al (evalProfiles true env (pktOfD st) ps)) :=
-  (profiles_block env st (pktOfD st) al ps noMatchID rid hrec hal (hps.plain hc)).1
+  (profiles_block env st (pktOfD st) al ps noMatchID rid hal (hps.plain hc)).1
 
 /-- Whole program on the label-level semantics. -/
 theorem lrun_program_partial (env : Env) (st : List Byte) (r : Rules) (hok : ProgOK env st r)
@@ -126,7 +130,7 @@ def exRules : Rules :=
   { tiers := [{ endAction := EndAction.deny, endRuleID := 1, policies := [{ rules := [exRule1] }] }],
     profiles := [{ rules := [exRule2] }] }
 
-example (env : Env) (st : List Byte) (hc : SetCtx env st) (hrec : env.c.record = false) : ProgOK env st exRules := by
+example (env : Env) (st : List Byte) (hc : SetCtx env st) : ProgOK env st exRules := by
   have hr1 : RuleOK exRule1 := by
     refine ⟨?_, ?_, ?_, ?_⟩
     · intro pr h
@@ -142,7 +146,7 @@ example (env : Env) (st : List Byte) (hc : SetCtx env st) (hrec : env.c.record =
     · intro pr h; simp [exRule2] at h
     · intro id h; simp [Rule.ipSetIDs, exRule2] at h
     · intro pr h; simp [exRule2] at h
-  refine ⟨hc, hrec, ?_, ?_, ?_, ?_, ?_, ?_⟩
+  refine ⟨hc, ?_, ?_, ?_, ?_, ?_, ?_⟩
   · intro t ht pol hp rule hr
     simp [exRules] at ht; subst ht; simp at hp; subst hp; simp at hr; subst hr
     exact ⟨by decide, hr1⟩
@@ -169,9 +173,66 @@ example : (match instructions exCfg exRules with
 example : exCfg.policyMapStride = 0 ∧ (flat (compile exCfg exRules)).length < exCfg.trampolineStride := by
   decide +kernel
 
+/-! ### `Builder.Instructions` is total on valid input (IPv4, one unsplit program) -/
+
+/-- **compile_total (IPv4, not split)**: for every configuration whose policy rules have an
+allow/deny/pass/next-tier/log action, whose profile rules have an allow/deny/pass/next-tier action,
+and whose rules carry non-zero IP-set ids and at most one destination IP set (`Buildable` — what
+the calculation graph hands to the builder), the builder neither panics nor does `Assemble` fail:
+every jump it emits targets a label defined LATER in the program, at most 32767 instructions
+ahead.  `hshort`/`hstride`: the program fits one block below the trampoline stride
+(`SetTrampolineStride` caps the stride at 32667). -/
+theorem compile_total_partial (c : Cfg) (r : Rules) (hv6 : c.v6 = false) (hb : Buildable r)
+    (hnosplit : c.policyMapStride = 0) (hshort : (flat (compile c r)).length < c.trampolineStride)
+    (hstride : c.trampolineStride ≤ 32768) :
+    ∃ prog, instructions c r = some (some [prog]) :=
+  instructions_total c r hv6 hb hnosplit hshort hstride
+
+/-- `Assemble` succeeds on ANY event list whose jumps all target later labels and that has at most
+32767 events (the assembler model that is compared with the real `Block.Assemble`). -/
+theorem assemble_total_all (evs : List Ev) (hc : closedIn [] evs = true) (hlen : evs.length ≤ 32767) :
+    ∃ prog, assemble evs = some prog := by
+  have h := asm_total evs none [] [] hc hlen
+  unfold assemble
+  cases h' : asmGo evs none [] [] with
+  | none => rw [h'] at h; cases h
+  | some p => exact ⟨p, rfl⟩
+
+/-- The whole-program theorem without a build hypothesis: the program EXISTS and decides as the
+reference demands. -/
+theorem polprog_built_verdict_partial (env : Env) (st : List Byte) (r : Rules) (hok : ProgOK env st r)
+    (hb : Buildable r) (hs : env.stateOK = true) (hnosplit : env.c.policyMapStride = 0)
+    (hshort : (flat (compile env.c r)).length < env.c.trampolineStride)
+    (hstride : env.c.trampolineStride ≤ 32768) :
+    ∃ prog, instructions env.c r = some (some [prog]) ∧
+      ∃ o, (execL env prog (Mach.init st)).obs = some o ∧
+        (expectedObs env r.forXDP (verdict env r (pktOfD st))).agrees o = true := by
+  obtain ⟨prog, hi⟩ := instructions_total env.c r hok.ctx.v4 hb hnosplit hshort hstride
+  exact ⟨prog, hi, polprog_verdict_partial env st r hok hs hnosplit hshort prog hi⟩
+
+-- non-vacuity: the example configuration is buildable, the stride bound holds for the default stride
+example : Buildable exRules := by
+  have i1 : RuleIds exRule1 := ⟨by decide, by intro id h; simp [Rule.ipSetIDs, exRule1] at h; subst h; decide⟩
+  have i2 : RuleIds exRule2 := ⟨by decide, by intro id h; simp [Rule.ipSetIDs, exRule2] at h⟩
+  refine ⟨?_, ?_, ?_, ?_, ?_, ?_⟩
+  · intro t ht pol hp rule hr
+    simp [exRules] at ht; subst ht; simp at hp; subst hp; simp at hr; subst hr
+    exact ⟨by decide, i1⟩
+  · intro t ht; simp [exRules] at ht
+  · intro t ht; simp [exRules] at ht
+  · intro t ht; simp [exRules] at ht
+  · intro pol hp rule hr
+    simp [exRules] at hp; subst hp; simp at hr; subst hr
+    exact ⟨by decide, i2⟩
+  · intro pol hp; simp [exRules] at hp
+example : exCfg.trampolineStride ≤ 32768 ∧ exCfg.v6 = false := by decide
+
+-- the hypotheses are needed: a jump to a label that is never defined does not assemble
+example : assemble [jump .deny] = none := by decide
+
 /-! ### Where the full statement is false of the current code -/
 
-/-- `compile_total` is false: a PROFILE rule with action `log` (valid in the
+/-- `compile_total` is false without the profile-action hypothesis of `Buildable`: a PROFILE rule with action `log` (valid in the
 Calico API) makes `Builder.Instructions` panic (`writeProfile`'s action-label map
 has no "log" entry ⇒ empty label ⇒ `log.Panic("empty action label")`). -/
 theorem profile_log_panics :
